@@ -131,6 +131,15 @@ def templates(tier="quick"):
     v = Variant("v0", [two, imp, Stmt("top", ex=["o1", "o2", "g.c"], im=["g.h"])])
     T += _mk("several_outputs_with_discovered_deps", [v], tags=["deps-gcc", "depfile", "multi-output"], depth=d, js=(1, 2), max_fault_stmts=2, touch=True)
 
+    # T9d a file that the command has always written becomes a declared output of the (otherwise unchanged) statement: it has
+    # no record in the log, so the statement runs -- also when somebody had edited the file in the meantime
+    v0 = Variant("v0", [Stmt("a", ex=["s"], extra_outs=["b"]), Stmt("top", ex=["a"])])
+    v1 = Variant("v1", [Stmt(["a", "b"], ex=["s"]), Stmt("top", ex=["a"])])
+    fops = standard_ops([v0, v1], {}, js=(1, 2), ks=(1,), edits_during=False, max_fault_stmts=1, with_rm=False)
+    fops.append({"op": "write", "path": "b", "content": "edited by hand while the manifest did not claim it\n", "label": "b:=hand edit"})
+    fb = next(i for i, o in enumerate(fops) if o["op"] == "ninja")
+    T.append(scenario("file_becomes_a_declared_output/built", "template", [v0, v1], ops=fops, init=[fb], depth=d, tags=["multi-output", "built"]))
+
     # T9c statements all of whose outputs are implicit (`build | out.bin: ...`), with discovered dependencies
     for kind, kw in (("gcc", {"deps": "gcc"}), ("depfile", {"depfile": True})):
         o = Stmt("out.bin", ex=["src"], hidden=["hdr"], **kw)
